@@ -28,7 +28,7 @@ ASSUMPTIONS = ["bool entries in shape, an empty shape list and unparsable-but-st
                "a numtype swap to a type of the same item size yields a valid, consistent description and is not generated as a must-raise case"]
 EXHAUSTIVE = "single-corruption matrix x 5 array kinds"
 KINDS = ['1d', 'nd', 'empty', 'ragged-values', 'ragged-indices']
-MUST_HIT = ['kind:' + k for k in KINDS] + ['corr:file', 'corr:key-removed', 'corr:key-retyped', 'corr:token', 'corr:shape', 'corr:size',
+MUST_HIT = ['form:Path'] + ['kind:' + k for k in KINDS] + ['corr:file', 'corr:key-removed', 'corr:key-retyped', 'corr:token', 'corr:shape', 'corr:size',
                                             'corr:itemsize-swap', 'fuzz:opened-consistent', 'fuzz:rejected', 'bypath:delete', 'bypath:truncate']
 
 RETYPES = [None, 123, 1.5, ['x'], {'a': 1}, True]
@@ -176,6 +176,10 @@ def execute(ctx, spec):
               (f":{type(RETYPES[corr['to']]).__name__}" if corr['c'] == 'key-retyped' else '')
         only_open = corr['c'] in ('key-removed', 'key-retyped') and corr['key'] == 'darrobject'
         before = snapshot(d)
+        import pathlib
+        if corr.get('to', 0) % 2 or corr.get('how', '') in ('+1', 'missing', 'notjson', 'negative') or corr.get('v', '') in ('uint', 'LITTLE', 'c'):
+            top, sub = pathlib.Path(top), pathlib.Path(sub)       # the by-path entry points take str and Path alike
+            out.cls('form:Path')
         if not only_open:
             if ragged:
                 must_raise(out, f'RaggedArray:{tag}', lambda: darr.RaggedArray(top), 'RaggedArray(path)')
